@@ -1789,6 +1789,135 @@ def probe_interpreter_settings(ctx):
     return n
 
 
+KW_POOL_SRC = [
+    "schema.dict({'id': schema.int.min(1), optional('tags'): schema.list([schema.str.len(1, 3), ...]), ...: ...})",
+    "schema.list([schema.dict({'a': schema.none, 'b': schema.float(1.5).precision(2)})])",
+    "schema.any(schema.int, schema.str.alphabet('ab').len(2), schema.list(schema.bool).len(1, 2))",
+    "schema.str.regex(r'[a-c]{2}x?')",
+    "schema.list([..., schema.int(3), ...])",
+    "schema.bytes(b'ab')",
+]
+KW_VALUES_SRC = ["{'id': 1, 'tags': ['ab', 'c']}", "[{'a': None, 'b': 1.5}]", "'ab'", "'abx'", "[1, 3, 2]", "b'ab'",
+                 "{'id': 0}", "[{'a': 1}]", "5.5", "[3]"]
+
+KW_PROGRAM = """
+import sys
+sys.path.insert(0, %(harness)r)
+from gen import *
+import tape
+from d42 import fake, represent, schema, optional, substitute, validate, validate_or_fail
+from d42.utils import from_native, make_required
+POOL = [%(pool)s]
+VALUES = [%(values)s]
+def observe():
+    out = []
+    for s in POOL:
+        out.append(repr(s)); out.append(represent(s))
+        for v in VALUES:
+            res = validate(s, v)
+            out.append(repr([(type(e).__name__, repr(e)) for e in res.get_errors()]))
+            try:
+                validate_or_fail(s, v); out.append('valid')
+            except Exception as e:
+                out.append(type(e).__name__ + ': ' + str(e))
+            try:
+                out.append(repr(substitute(s, v)))
+            except Exception as e:
+                out.append(type(e).__name__ + ': ' + str(e))
+        try:
+            with tape.scripted(tape.Tape(%(tape)r)):
+                out.append(repr(fake(s)))
+        except Exception as e:
+            out.append(type(e).__name__)
+    return out
+"""
+
+
+def _kw_candidates(param):
+    """non-default values of the declared kind of a keyword parameter (annotation, else the default's type)"""
+    import typing
+    ann = param.annotation
+    kinds = []
+    if ann is not param.empty:
+        args = typing.get_args(ann) or (ann,)
+        kinds = [a for a in args if a in (int, bool, str, float, bytes)]
+    if not kinds and param.default is not param.empty and param.default is not None and param.default is not Nil:
+        kinds = [type(param.default)]
+    table = {int: ["2", "0", "7"], bool: ["True", "False"], str: ["'x'", "''", "'::'"], float: ["0.5"], bytes: ["b'x'"]}
+    out = []
+    for k in kinds:
+        out += table.get(k, [])
+    return out or ["2", "True", "'x'", "None", "[]"]
+
+
+def probe_keyword_arguments(ctx):
+    """Every keyword the CURRENT tree's public entry points and their visitors declare (read from the signatures,
+    so a keyword added tomorrow is probed tomorrow), passed with non-default values of its declared kind, plus an
+    undeclared one: whatever the call itself returns or raises, repr/represent/validate/validate_or_fail/
+    substitute/fake of every schema of a fixed pool are the same before and after (no per-call option may stick
+    to the module-level visitors)."""
+    import inspect
+    import d42.generation as G
+    import d42.representation as R
+    import d42.substitution as SU
+    import d42.validation as V
+    scope = dict(NS)
+    src = KW_PROGRAM % {"pool": ", ".join(KW_POOL_SRC), "values": ", ".join(KW_VALUES_SRC), "tape": FAKE_TAPE,
+                        "harness": os.path.dirname(os.path.dirname(os.path.abspath(__file__)))}
+    exec(src.replace("from gen import *", "").replace("import tape\n", "import tape as tape\n"), scope)
+    entry = [("represent", represent, "represent(POOL[%d]%s)", R, "Representor"),
+             ("validate", validate, "validate(POOL[%d], VALUES[0]%s)", V, "Validator"),
+             ("validate_or_fail", validate_or_fail, "validate_or_fail(POOL[%d], VALUES[0]%s)", V, "Validator"),
+             ("fake", fake, "fake(POOL[%d]%s)", G, "Generator"),
+             ("substitute", substitute, "substitute(POOL[%d], VALUES[0]%s)", SU, "Substitutor"),
+             ("make_required", make_required, "make_required(POOL[%d]%s)", None, None)]
+    n = 0
+    baseline = scope["observe"]()
+    for name, f, call, mod, vis in entry:
+        kws = {}
+        for pn, prm in inspect.signature(f).parameters.items():
+            if prm.kind is prm.KEYWORD_ONLY or (prm.kind is prm.POSITIONAL_OR_KEYWORD and prm.default is not prm.empty):
+                kws[pn] = _kw_candidates(prm)
+        cls = getattr(mod, vis, None) if mod is not None else None
+        if cls is not None:
+            for mn in dir(cls):
+                if not mn.startswith("visit_"):
+                    continue
+                try:
+                    sig = inspect.signature(getattr(cls, mn))
+                except (TypeError, ValueError):
+                    continue
+                for pn, prm in sig.parameters.items():
+                    if prm.kind is prm.KEYWORD_ONLY and pn not in kws:
+                        kws[pn] = _kw_candidates(prm)
+        if any(prm.kind is prm.VAR_KEYWORD for prm in inspect.signature(f).parameters.values()):
+            kws.setdefault("verif_undeclared_option", ["2", "True"])
+        for kw, cands in sorted(kws.items()):
+            for vsrc in cands:
+                for i in (0, 1):
+                    stmt = call % (i, ", %s=%s" % (kw, vsrc))
+                    try:
+                        eval(stmt, scope)
+                        status = "ok"
+                    except RecursionError:
+                        status = "RecursionError"
+                    except Exception as e:  # noqa
+                        status = type(e).__name__
+                    n += 1
+                    after = scope["observe"]()
+                    if after != baseline:
+                        j = next(k for k in range(len(baseline)) if k >= len(after) or after[k] != baseline[k])
+                        prog = src + "before = observe()\ntry:\n    " + stmt + "\nexcept Exception as e:\n    print('the call raised', type(e).__name__)\n" \
+                               "after = observe()\nfor b, a in zip(before, after):\n    if a != b:\n        print('BEFORE:', b); print('AFTER :', a); break\n" \
+                               "print('observations unchanged' if before == after else 'OBSERVATIONS CHANGED')\n"
+                        ctx.violation("a per-call keyword argument changed the behaviour of existing schemas", {
+                            "kind": "keyword-probe", "what": stmt + "  (" + status + ")",
+                            "observed": "afterwards: " + str(after[j] if j < len(after) else None)[:300],
+                            "expected": "as before the call: " + str(baseline[j])[:300], "source": prog})
+                        return n
+    return n
+
+
 def probe_bare_classes(ctx):
     """Schemas built from the public classes directly (IntSchema(), TypeAliasSchema(), a Props over a registry
     dict the caller owns ...) instead of through the facade: every read-only operation leaves the registry of the
@@ -2018,6 +2147,7 @@ def run(ctx):
     ctx.coverage["distribution"]["collection_argument_probes"] = probe_collection_arguments(ctx)
     ctx.coverage["distribution"]["interpreter_setting_probes"] = probe_interpreter_settings(ctx)
     ctx.coverage["distribution"]["bare_class_probes"] = probe_bare_classes(ctx)
+    ctx.coverage["distribution"]["keyword_argument_probes"] = probe_keyword_arguments(ctx)
 
 
 def _run(ctx, pristine, n_hist, n_ops, depth, n_slices, shrink_budget, model_hist):
